@@ -154,10 +154,15 @@ def stock_case(sc):
     try:
         As_ref = (fx[np.ix_(d, d)] - left @ np.linalg.solve(Mz, right)) / T[d][:, None]
     except np.linalg.LinAlgError:
-        # the algebraic block the routine was given is singular (e.g. Jacobians that were never evaluated): nothing the routine
-        # reports can be the reduction of these matrices
-        return dict(rec, n=int(dae.n), nzero_T=int(len(z)), shape_ok=True, as_ok=False, eig_ok=False, count_ok=True, names_ok=True,
-                    counts_partition=True, counts_ok=True, pf_nonneg=True, pf_sum_ok=True, singular_algebraic_block=True)
+        # the dense reference cannot be formed (algebraic block singular to working precision).  For the plain flow this decides
+        # nothing (the case is reported as not observed, as before); for another flow of a case whose plain flow gave a state
+        # matrix, the verdict is the comparison with that matrix (matrices that were never evaluated end up here)
+        if As_plain is None:
+            raise
+        As_ = np.array(matrix(eig.As))
+        same = bool(As_.shape == As_plain.shape and np.allclose(As_, As_plain, rtol=1e-7, atol=1e-9))
+        return dict(rec, n=int(dae.n), nzero_T=int(len(z)), shape_ok=True, as_ok=same, eig_ok=same, count_ok=True, names_ok=True,
+                    counts_partition=True, counts_ok=True, pf_nonneg=True, pf_sum_ok=True, flow_same=same, singular_algebraic_block=True)
     As = np.array(matrix(eig.As))
     mu = np.asarray(eig.mu)
     mu_ref = np.linalg.eigvals(As_ref)
